@@ -4,7 +4,7 @@ import numpy as np
 import pandas as pd
 from .. import env, attach, gen, flow, solve
 from ..spec import Clock, UNIT_NS, local_ok
-from ..canon import Snap, vec_diff, mat_diff
+from ..canon import Snap, vec_diff, mat_diff, nodal_row_index
 
 PROPERTY = 'C08'
 CASES = {'quick': 144, 'thorough': 2500}
@@ -26,7 +26,8 @@ def rows_diff(a, b, keep):
     import scipy.sparse as sp
     A1 = a.A.tocsr() if a.A is not None else sp.csr_matrix((0, len(a.c)))
     A2 = b.A.tocsr()[:, keep] if b.A is not None else sp.csr_matrix((0, len(keep)))
-    n1 = [i for i, t in enumerate(a.cType or '') if t != 'N']; n2 = [i for i, t in enumerate(b.cType or '') if t != 'N']
+    N1 = nodal_row_index(a); N2 = nodal_row_index(b)
+    n1 = [i for i in range(len(a.cType or '')) if i not in set(N1)]; n2 = [i for i in range(len(b.cType or '')) if i not in set(N2)]
     # rows that belong only to the out-of-horizon element are all zero: drop them on the P+ side
     full2 = b.A.tocsr() if b.A is not None else A2
     n2 = [i for i in n2 if abs(full2[i, :]).sum() != 0 or b.b[i] != 0]
@@ -39,7 +40,6 @@ def rows_diff(a, b, keep):
             return 'asset rows: ' + d
         if vec_diff(a.b[n1], b.b[n2], 0.) or [a.cType[i] for i in n1] != [b.cType[i] for i in n2]:
             return 'asset rows: b / cType differ'
-    N1 = [i for i, t in enumerate(a.cType or '') if t == 'N']; N2 = [i for i, t in enumerate(b.cType or '') if t == 'N']
     k1 = {(int(t), str(n)): i for i, (t, n) in zip(N1, a.map_nodal_restr or [])}
     k2 = {(int(t), str(n)): i for i, (t, n) in zip(N2, b.map_nodal_restr or [])}
     if set(k1) != set(k2):
